@@ -73,8 +73,8 @@ CLAIMED.update({
    note=TB_B + '; LeastSquares::estimateUsingSVD / setDataSize used by contract (specs/C05/meta.json); every obligation is labelled bounded in the evidence and none is counted as discharged', ref='DESIGN.md 9.8'),
 })
 CLAIMED.update({
- 'C09': dict(cat='other', technique='BOUNDED stand-in: SMT verification conditions over the reals generated from the real NormalAndCurvatureEstimation<Vector3d>::compute and flipNormalTowardOriginCoordinate (cloud of 2 points), the kd-tree search and the eigen-decomposition behind an assumed contract; never counted as proved',
-   text='BOUNDED (cloud of 2 points, 3-D double): the estimation step is run once per point for that point, the stored normal is +/- the eigenvector of the smallest eigenvalue, has unit length, faces the sensor origin (normal . point <= 0), the curvature is the smallest eigenvalue over the sum and lies in [0, 1/3]; from any prior state. That the eigenvector is the least-variance direction of the k nearest neighbours (covariance accumulation, nanoflann, SelfAdjointEigenSolver), planar exactness, rotation equivariance, 2-D, float and homogeneous points are NOT decided.',
+ 'C09': dict(cat='other', technique='BOUNDED stand-in: SMT verification conditions over the reals generated from the real NormalAndCurvatureEstimation<Vector3d>::compute, planeEstimation_ and flipNormalTowardOriginCoordinate (clouds of 2 / 3 points), the kd-tree search and the eigen-decomposition behind an assumed contract; never counted as proved',
+   text='BOUNDED (cloud of 2 points, 3-D double): the estimation step is run once per point for that point, the stored normal is +/- the eigenvector of the smallest eigenvalue, has unit length, faces the sensor origin (normal . point <= 0), the curvature is the smallest eigenvalue over the sum and lies in [0, 1/3]; from any prior state. planeEstimation_ (2 neighbours of 3 points) hands the covariance of the neighbours reported by the kd-tree to the eigen-solver and stores its results. What nanoflann and SelfAdjointEigenSolver return, planar exactness, rotation equivariance, 2-D, float and homogeneous points are NOT decided.',
    note=TB_B + '; planeEstimation_ enters by an assumed contract (ascending non-negative eigenvalues with positive sum, unit first eigenvector); std::copy over .data() read in column-major storage order; every obligation is labelled bounded and none is counted as discharged', ref='DESIGN.md 9.8'),
 })
 COMMON_NA = "the deciding computation is a third-party header-only kernel that contract-based verification cannot reach here: CBMC's C++ front end does not parse Eigen/nanoflann, the extractor covers fixed-size coefficient-wise Eigen only, and a contract on the kernel would have to be assumed in full, after which nothing of the property is left to prove; switching to testing or model checking would be a different technique family (DESIGN.md 5, 9.6)"
